@@ -463,6 +463,10 @@ func (x *Exec) unmarshalInto(st *State, bz T, target Val, ci *callInfo) {
 
 // assumeFieldRanges: machine ranges of integer fields of decoded messages.
 func (x *Exec) assumeFieldRanges(st *State, v Val, t types.Type, depth int) {
+	x.e.assumeFieldRanges(st, v, t, depth)
+}
+
+func (e *Engine) assumeFieldRanges(st *State, v Val, t types.Type, depth int) {
 	sv, ok := v.(*StructV)
 	if !ok || depth == 0 {
 		return
@@ -476,7 +480,7 @@ func (x *Exec) assumeFieldRanges(st *State, v Val, t types.Type, depth int) {
 				st.assume(r, "decoded field range")
 			}
 		case *StructV:
-			x.assumeFieldRanges(st, f, ft, depth-1)
+			e.assumeFieldRanges(st, f, ft, depth-1)
 		case *SliceV:
 			st.assume(Ge(f.Len, IntLit(0)), "decoded slice length >= 0")
 		}
